@@ -195,8 +195,9 @@ theorem c05_diag_range_ascii (linePrefix mid : Text) (p : PkgInfo)
   simp only [diagRange, h1, h2, byteLen_append, hcol]
   congr 2; omega
 
-/-- **F-C05-3**: with a non-ASCII character before the spec the byte column is not the UTF-16 column -/
-theorem c05_deviation_utf16 : byteLen "é".toList = 2 ∧ utf16Length "é".toList = 1 := by decide
+/-- with a non-ASCII character before the spec the byte column is not the UTF-16 column (F-C05-3, repaired: the
+    diagnostics and code actions convert at the LSP boundary — Props/C05Wire.lean, Props/C07Locate.lean) -/
+theorem c05_bytes_vs_utf16 : byteLen "é".toList = 2 ∧ utf16Length "é".toList = 1 := by decide
 
 end Vlsp.C05
 
